@@ -10,7 +10,7 @@ def sh(cmd, **kw): return subprocess.run(cmd, shell=True, capture_output=True, t
 only = sys.argv[1:]
 sh(f'git -C /repo worktree remove --force {WT}'); sh(f'git -C /repo worktree add --detach {WT} HEAD')
 res = {}
-for pd in sorted(SRC.glob('C*/[ab]')):
+for pd in sorted(SRC.glob('C*/[abc]')):
     sid = pd.parent.name + pd.name + SUFFIX
     if only and sid not in only: continue
     if (DST/sid/'meta.json').exists() and not only: continue
